@@ -411,6 +411,32 @@ def run(ctx):
     for cls, n in dev_counts.items():   # exact counts on the KNOWN-FINDING line
         if cls in run.known_hit:
             run.known_hit[cls]["count"] = n
+    # ---- histories: several subscriptions on one client object / interleaved client objects
+    from . import c13_hist
+
+    hs = c13_hist.histories(ctx.rng, 1500 if ctx.thorough else 300)
+    htasks = [(v, hs[i:i + 150]) for v in I.VARIANTS for i in range(0, len(hs), 150)]
+    hprobs, hruns, hn = [], 0, 0
+    with ProcessPoolExecutor(max_workers=jobs) as ex:
+        for out in ex.map(c13_hist.worker, htasks, chunksize=1):
+            hruns += out["runs"]
+            hn += out["histories"]
+            hprobs.extend(out["problems"])
+            for k, n in out["dist"].items():
+                run.dist("histories", k, n)
+    run.count(hruns)
+    run.extra["histories"] = {"histories": hn, "runs": hruns, "failing": len(hprobs),
+                              "what": "every ordered pair of 28 call kinds (7 per-call kwargs x 4 frame scripts) on one client "
+                                      "object x 2 client configurations + seeded random histories of 3-4 calls over 1-2 client "
+                                      "objects, x 3 client variants; each call vs the stateless model of that call alone; "
+                                      "vars(client), caller's kwargs/variables objects and module state snapshotted"}
+    real = [p for p in hprobs if p]
+    real.sort(key=lambda p: (not p["property_observables_differ"], len(p["history"])))
+    for p in real[:3]:
+        run.violation("history: call #%s of %s on one client object (%s) differs from the same call alone: %s%s" % (
+            p["failing_call"], [c[1] + "/" + c[2] for c in p["history"]], p["variant"], ", ".join(p["differs"]),
+            ("; the property's observables %s differ" % p["property_observables_differ"]) if p["property_observables_differ"] else ""),
+            p, found_input=bool(p["property_observables_differ"]) or any("changed" in d or "modified" in d for d in p["differs"]))
     # ---- runtime-only: real websockets server
     from . import c13_real
 
